@@ -80,7 +80,8 @@ class Wrap:
         self.calls = 0
 
     def __enter__(self):
-        self.orig = self.owner.__dict__[self.name] if self.name in self.owner.__dict__ else getattr(self.owner, self.name)
+        self.own = self.name in self.owner.__dict__
+        self.orig = self.owner.__dict__[self.name] if self.own else getattr(self.owner, self.name)
         raw = self.orig
         is_static = isinstance(raw, staticmethod)
         is_class = isinstance(raw, classmethod)
@@ -106,5 +107,8 @@ class Wrap:
         return self
 
     def __exit__(self, *exc):
-        setattr(self.owner, self.name, self.orig)
+        if self.own:
+            setattr(self.owner, self.name, self.orig)
+        else:
+            delattr(self.owner, self.name)
         return False
